@@ -98,21 +98,19 @@ theorem c12_gradient_const (m Cfa Cfb Dea Deb xb : ℝ) (hm : m < 2) (hCa : 0 < 
 example (t0 t1 : ℝ) (h0 : 0 < t0) (h1 : 0 ≤ t1) : Real.sqrt (t1 / t0) * Real.sqrt (t1 / t0) = t1 / t0 :=
   Real.mul_self_sqrt (div_nonneg h1 h0.le)
 
-/-! ### Geometric splits (SE2, MIT)
+/-! ### Geometric splits (SE2, MIT, Novendstern)
 
-`Dassh.Gen.C12Geo` (regenerated from `flowsplit_se2.calculate_flow_split` / `flowsplit_mit.calculate_flow_split` on every run) holds
-the traced split factors with every real power replaced by a variable, and `mass_se2` / `mass_mit`: the split conserves mass under
-the pair relations `R_a * R_b = 1`.  The translator checks that the powers of the traced code come in such pairs (same base with
-exponents `e` / `-e`; reciprocal bases with the same exponent); below, the two laws of the real power that make the pair
-relations true, and the SE2 / MIT statements with `Real.rpow` put back. -/
+`Dassh.Gen.C12Geo` (regenerated from the `calculate_flow_split` functions of `flowsplit_se2`, `flowsplit_mit`, `flowsplit_nov` on every
+run) holds the traced split factors with every real power replaced by a variable, and `mass_se2` / `mass_mit` / `mass_nov`: the split
+conserves mass under the relations between those powers that the translator found in the traced code and checked on its values -
+a power of a quotient of two variables is the quotient of their powers; other powers come in pairs `x^e`, `x^(-e)`.  Below: the
+two laws of the real power that make those relations true, and the three statements with `Real.rpow` put back. -/
 
 theorem c12_rpow_pair_neg (x e : ℝ) (hx : 0 < x) : x ^ e * x ^ (-e) = 1 := by
   rw [← Real.rpow_add hx]; simp
 
-theorem c12_rpow_pair_inv (a b e : ℝ) (ha : 0 < a) (hb : 0 < b) : (a / b) ^ e * (b / a) ^ e = 1 := by
-  rw [← Real.mul_rpow (div_pos ha hb).le (div_pos hb ha).le]
-  have : a / b * (b / a) = 1 := by field_simp
-  rw [this, Real.one_rpow]
+theorem c12_rpow_quot (a b e : ℝ) (ha : 0 < a) (hb : 0 < b) : (a / b) ^ e = a ^ e / b ^ e :=
+  Real.div_rpow ha.le hb.le e
 
 /-- SE2 split over the reals: `lam` is the (positive) geometric group the code raises to `0.571` / `-0.571`, `de0`, `de1` the
 hydraulic diameters whose ratio it raises to `0.714`; for ALL exponents `e1`, `e2`. -/
@@ -122,9 +120,10 @@ theorem c12_mass_se2 (A0 A1 A2 N0 N1 N2 lam de0 de1 e1 e2 : ℝ) (hA0 : 0 < A0) 
       + N1 * A1 * Dassh.Gen.C12Geo.se2_x1 A0 A1 A2 N0 N1 N2 (lam ^ e1) ((de1 / de0) ^ e2) (lam ^ (-e1)) ((de0 / de1) ^ e2)
       + N2 * A2 * Dassh.Gen.C12Geo.se2_x2 A0 A1 A2 N0 N1 N2 (lam ^ e1) ((de1 / de0) ^ e2) (lam ^ (-e1)) ((de0 / de1) ^ e2)
       = N0 * A0 + N1 * A1 + N2 * A2 :=
-  Dassh.Gen.C12Geo.mass_se2 A0 A1 A2 N0 N1 N2 _ _ _ _ hA0 hA1 hA2 hN0 hN1 hN2
+  Dassh.Gen.C12Geo.mass_se2 A0 A1 A2 N0 N1 N2 _ _ _ _ (de0 ^ e2) (de1 ^ e2) hA0 hA1 hA2 hN0 hN1 hN2
     (Real.rpow_pos_of_pos hl _) (Real.rpow_pos_of_pos (div_pos h1 h0) _) (Real.rpow_pos_of_pos hl _)
-    (Real.rpow_pos_of_pos (div_pos h0 h1) _) (c12_rpow_pair_neg lam e1 hl) (c12_rpow_pair_inv de1 de0 e2 h1 h0)
+    (Real.rpow_pos_of_pos (div_pos h0 h1) _) (Real.rpow_pos_of_pos h0 _) (Real.rpow_pos_of_pos h1 _)
+    (c12_rpow_pair_neg lam e1 hl) (c12_rpow_quot de1 de0 e2 h1 h0) (c12_rpow_quot de0 de1 e2 h0 h1)
 
 /-- the same for the MIT (Chiu-Rohsenow-Todreas) split -/
 theorem c12_mass_mit (A0 A1 A2 N0 N1 N2 lam de0 de1 e1 e2 : ℝ) (hA0 : 0 < A0) (hA1 : 0 < A1) (hA2 : 0 < A2)
@@ -133,8 +132,27 @@ theorem c12_mass_mit (A0 A1 A2 N0 N1 N2 lam de0 de1 e1 e2 : ℝ) (hA0 : 0 < A0) 
       + N1 * A1 * Dassh.Gen.C12Geo.mit_x1 A0 A1 A2 N0 N1 N2 (lam ^ e1) ((de1 / de0) ^ e2) (lam ^ (-e1)) ((de0 / de1) ^ e2)
       + N2 * A2 * Dassh.Gen.C12Geo.mit_x2 A0 A1 A2 N0 N1 N2 (lam ^ e1) ((de1 / de0) ^ e2) (lam ^ (-e1)) ((de0 / de1) ^ e2)
       = N0 * A0 + N1 * A1 + N2 * A2 :=
-  Dassh.Gen.C12Geo.mass_mit A0 A1 A2 N0 N1 N2 _ _ _ _ hA0 hA1 hA2 hN0 hN1 hN2
+  Dassh.Gen.C12Geo.mass_mit A0 A1 A2 N0 N1 N2 _ _ _ _ (de0 ^ e2) (de1 ^ e2) hA0 hA1 hA2 hN0 hN1 hN2
     (Real.rpow_pos_of_pos hl _) (Real.rpow_pos_of_pos (div_pos h1 h0) _) (Real.rpow_pos_of_pos hl _)
-    (Real.rpow_pos_of_pos (div_pos h0 h1) _) (c12_rpow_pair_neg lam e1 hl) (c12_rpow_pair_inv de1 de0 e2 h1 h0)
+    (Real.rpow_pos_of_pos (div_pos h0 h1) _) (Real.rpow_pos_of_pos h0 _) (Real.rpow_pos_of_pos h1 _)
+    (c12_rpow_pair_neg lam e1 hl) (c12_rpow_quot de1 de0 e2 h1 h0) (c12_rpow_quot de0 de1 e2 h0 h1)
+
+/-- Novendstern split over the reals, for every exponent `e` (the code uses 0.714): the area-weighted split factors sum to the
+bundle area the split is normalised with. -/
+theorem c12_mass_nov (A0 A1 A2 Ab N0 N1 N2 de0 de1 de2 e : ℝ) (hA0 : 0 < A0) (hA1 : 0 < A1) (hA2 : 0 < A2) (hAb : 0 < Ab)
+    (hN0 : 0 < N0) (hN1 : 0 < N1) (hN2 : 0 < N2) (h0 : 0 < de0) (h1 : 0 < de1) (h2 : 0 < de2) :
+    N0 * A0 * Dassh.Gen.C12Geo.nov_x0 A0 A1 A2 Ab N0 N1 N2 ((de1 / de0) ^ e) ((de2 / de0) ^ e) ((de0 / de1) ^ e) ((de2 / de1) ^ e)
+        ((de0 / de2) ^ e) ((de1 / de2) ^ e)
+      + N1 * A1 * Dassh.Gen.C12Geo.nov_x1 A0 A1 A2 Ab N0 N1 N2 ((de1 / de0) ^ e) ((de2 / de0) ^ e) ((de0 / de1) ^ e) ((de2 / de1) ^ e)
+        ((de0 / de2) ^ e) ((de1 / de2) ^ e)
+      + N2 * A2 * Dassh.Gen.C12Geo.nov_x2 A0 A1 A2 Ab N0 N1 N2 ((de1 / de0) ^ e) ((de2 / de0) ^ e) ((de0 / de1) ^ e) ((de2 / de1) ^ e)
+        ((de0 / de2) ^ e) ((de1 / de2) ^ e)
+      = Ab :=
+  Dassh.Gen.C12Geo.mass_nov A0 A1 A2 Ab N0 N1 N2 _ _ _ _ _ _ (de0 ^ e) (de1 ^ e) (de2 ^ e) hA0 hA1 hA2 hAb hN0 hN1 hN2
+    (Real.rpow_pos_of_pos (div_pos h1 h0) _) (Real.rpow_pos_of_pos (div_pos h2 h0) _) (Real.rpow_pos_of_pos (div_pos h0 h1) _)
+    (Real.rpow_pos_of_pos (div_pos h2 h1) _) (Real.rpow_pos_of_pos (div_pos h0 h2) _) (Real.rpow_pos_of_pos (div_pos h1 h2) _)
+    (Real.rpow_pos_of_pos h0 _) (Real.rpow_pos_of_pos h1 _) (Real.rpow_pos_of_pos h2 _)
+    (c12_rpow_quot de1 de0 e h1 h0) (c12_rpow_quot de2 de0 e h2 h0) (c12_rpow_quot de0 de1 e h0 h1)
+    (c12_rpow_quot de2 de1 e h2 h1) (c12_rpow_quot de0 de2 e h0 h2) (c12_rpow_quot de1 de2 e h1 h2)
 
 end Dassh.Props.C12
